@@ -596,6 +596,59 @@ func init() {
 			}
 			return walk(a[0], 0)
 		},
+		"errors.As": func(e *Engine, _ *ssa.Function, a []Value) Value {
+			// target is a non-nil pointer to a variable of an error type (or of an interface type)
+			tgt, _ := a[1].(*Iface)
+			if tgt == nil {
+				panic(pathEnd{"unsupported", "errors.As with a nil target"})
+			}
+			pt, ok := tgt.T.Underlying().(*types.Pointer)
+			cell, okc := tgt.V.(*Cell)
+			if !ok || !okc {
+				panic(pathEnd{"unsupported", "errors.As target is not a pointer"})
+			}
+			want := pt.Elem()
+			var walk func(v Value, depth int) bool
+			walk = func(v Value, depth int) bool {
+				ifc, _ := v.(*Iface)
+				if ifc == nil || depth > 8 {
+					return false
+				}
+				if _, native := ifc.V.(*Native); !native || types.IsInterface(want) {
+					if types.AssignableTo(ifc.T, want) {
+						if types.IsInterface(want) {
+							e.store(cell, ifc)
+						} else {
+							e.store(cell, ifc.V)
+						}
+						return true
+					}
+				}
+				if n, ok := ifc.V.(*Native); ok {
+					for _, w := range n.Wrap {
+						if walk(w, depth+1) {
+							return true
+						}
+					}
+					return false
+				}
+				// a user-defined error: follow its Unwrap method, if it has one
+				if m := e.methodOf(ifc.T, "Unwrap"); m != nil {
+					switch r := e.call(m, []Value{ifc.V}, nil).(type) {
+					case *Iface:
+						return walk(r, depth+1)
+					case *SliceV:
+						for _, w := range sliceVals(e, r) {
+							if walk(w, depth+1) {
+								return true
+							}
+						}
+					}
+				}
+				return false
+			}
+			return walk(a[0], 0)
+		},
 		"errors.New": func(e *Engine, _ *ssa.Function, a []Value) Value {
 			return &Iface{T: errType, V: &Native{Kind: "error", Msg: a[0]}}
 		},
